@@ -124,6 +124,9 @@ def main():
         for k in ("breaks", "needs_to_manifest", "history", "ran"):
             if k in prev:
                 meta[k] = prev[k]
+        # verdicts of checks not run this time are kept
+        for cid, r in (prev.get("checks") or {}).items():
+            meta["checks"].setdefault(cid, r)
         json.dump(meta, open(mp, "w"), indent=1)
         return 0
     finally:
